@@ -15,6 +15,8 @@ use crate::{Error, WithErrorInfo};
 
 fn std() -> &'static decl::Module {
     static STD: OnceLock<decl::Module> = OnceLock::new();
+    #[cfg(max_sixty_prql_verif)]
+    let _v = crate::verif_hooks::once("STD", STD.get().is_some());
     STD.get_or_init(|| {
         let _suppressed = debug::log_suppress();
 
